@@ -1,5 +1,6 @@
 import multiprocessing as mp
 from ctypes import c_short
+from collections import defaultdict
 from typing import Iterable, Any, Dict
 
 from coba.utilities  import coba_exit, peek_first
@@ -11,13 +12,16 @@ class CobaMultiprocessor(Filter[Iterable[Any], Iterable[Any]]):
 
     class ProcessFilter:
 
-        def __init__(self, filter: Filter, logger: Logger, cacher: Cacher, store: Dict[str,Any], logger_sink: Sink) -> None:
+        def __init__(self, filter: Filter, logger: Logger, cacher: Cacher, store: Dict[str,Any], logger_sink: Sink,
+            api_keys: Dict[str,str] = None, experiment: Any = None) -> None:
 
             self._filter      = filter
             self._logger      = logger
             self._cacher      = cacher
             self._store       = store
             self._logger_sink = logger_sink
+            self._api_keys    = api_keys
+            self._experiment  = experiment
 
         def filter(self, item: Any) -> Any:
 
@@ -25,6 +29,12 @@ class CobaMultiprocessor(Filter[Iterable[Any], Iterable[Any]]):
             CobaContext.logger = self._logger
             CobaContext.cacher = self._cacher
             CobaContext.store  = self._store
+
+            #what the parent set in code is not in the .coba files a new process reads
+            if self._api_keys is not None:
+                CobaContext.api_keys = defaultdict(lambda:None, self._api_keys)
+            if self._experiment is not None:
+                CobaContext._experiment = self._experiment
 
             #at this point logger has been marshalled so we can
             #modify it without affecting the base process logger
@@ -66,7 +76,10 @@ class CobaMultiprocessor(Filter[Iterable[Any], Iterable[Any]]):
                 cacher = ConcurrentCacher(CobaContext.cacher,array,lock)
                 store  = { "openml_semaphore": spawn_context.Semaphore(3), **CobaContext.store }
 
-                filter = CobaMultiprocessor.ProcessFilter(self._filter, logger, cacher, store, write_stdlog)
+                api_keys   = dict(CobaContext.api_keys)
+                experiment = CobaContext.experiment
+
+                filter = CobaMultiprocessor.ProcessFilter(self._filter, logger, cacher, store, write_stdlog, api_keys, experiment)
 
             try:
                 yield from Multiprocessor(filter, self._processes, self._maxtasksperchild).filter(items)
